@@ -91,7 +91,7 @@ def generate(rng, tier):
             if rng.integers(0, 8) == 0: tg = [ALIAS[x][-1] if x in ALIAS else x for x in tg]      # 'meter', 'micron', 'nanometer' as accepted by Unit()
             dt = ['float', 'float', 'int64', 'int32'][int(rng.integers(0, 4))]      # integer-stored flux samples / counts
             if dt != 'float': value = [float(int(v) + 1) for v in value]
-            out.append({'kind': 'to', 'wave': wave, 'value': value, 'wu': wu, 'vu': vu, 'units': tg, 'back': bool(rng.integers(0, 2)), 'dtype': dt})
+            out.append({'kind': 'to', 'wave': wave, 'value': value, 'wu': wu, 'vu': vu, 'units': tg, 'back': bool(rng.integers(0, 2)), 'dtype': dt, 'via_copy': bool(rng.integers(0, 2)), 'samp_unit': W[int(rng.integers(0, 4))]})
         elif t == 3:
             out.append({'kind': 'planck', 'temp': float(int(rng.integers(200, 12000))), 'wu': W[int(rng.integers(0, 4))], 'vu': F[int(rng.integers(0, 3))],
                         'wave_nm': [float(int(x)) for x in sorted(rng.choice(np.arange(150, 30000), 4, replace=False))], 'alias': bool(rng.integers(0, 2))})
@@ -150,6 +150,17 @@ def _impl(c):
     if k == 'to':
         s = R.Spectrum(np.array(c['wave']), np.array(c['value']).astype({'int64': np.int64, 'int32': np.int32}.get(c.get('dtype'), float)), waveunit=c['wu'], valueunit=c['vu'])
         i0 = float(np.trapz(s.value, s.wave))
+        samp = None
+        if c.get('samp_unit'):
+            # sample(…, waveunit=other) converts a COPY: the original stays, the samples are the same physical spectrum per `other`
+            fo = float(MPU[c['wu']] / MPU[c['samp_unit']])
+            xs_ = [float(x) * fo for x in s.wave]
+            before = (s.wave.tobytes(), s.value.tobytes(), s.waveunit, s.valueunit)
+            samp = {'xs': xs_, 'v': [float(x) for x in s.sample(np.array(xs_), waveunit=c['samp_unit'])],
+                    'unchanged': before == (s.wave.tobytes(), s.value.tobytes(), s.waveunit, s.valueunit)}
+        if c.get('via_copy'):
+            s0, s = s, s.copy()
+            if (s.waveunit, s.valueunit) != (s0.waveunit, s0.valueunit) or s is s0: samp = dict(samp or {}, copy_units=[s.waveunit, s.valueunit])
         exc = None
         try:
             s.to(*c['units'])
@@ -158,7 +169,7 @@ def _impl(c):
         if exc == 'ValueError' and any(u.lower() in LONG for u in c['units']) and all(u.lower() in W or u.lower() in F or u.lower() in LONG for u in c['units']):
             NOTES[id(c)] = ['to:alias-refused']
         out = {'wave': [float(x) for x in s.wave], 'value': [float(x) for x in s.value], 'wu': s.waveunit, 'vu': s.valueunit, 'exc': exc,
-               'trapz0': i0, 'trapz': float(np.trapz(s.value, s.wave)), 'integrate': float(s.integrate(method='trapz')), 'H': R.H, 'C': R.C}
+               'trapz0': i0, 'trapz': float(np.trapz(s.value, s.wave)), 'integrate': float(s.integrate(method='trapz')), 'H': R.H, 'C': R.C, 'samp': samp}
         if c['back'] and exc is None:
             # round trip: back to the original units
             s.to(c['wu']) if c['vu'] is None else s.to(c['vu'], c['wu'])
@@ -296,6 +307,13 @@ def oracle(c, io):
         if io['aa'] != f: return f"{a}->{a} changed the flux"
         if not close(io['aba'], f, 1e-13): return f"round trip {a}->{b}->{a} of {f} gives {io['aba']!r}"
         return None
+    if k == 'to' and io.get('samp'):
+        sp = io['samp']
+        if 'copy_units' in sp: return f"Spectrum.copy() of a ({c['wu']}, {c['vu']}) spectrum has units {sp['copy_units']}"
+        if not sp['unchanged']: return f"sample(waveunit='{c['samp_unit']}') changed the spectrum"
+        kk = float(MPU[c['wu']] / MPU[c['samp_unit']]) if c['vu'] is not None else 1.0
+        ref = [float(v) / kk for v in c['value']]          # sampled at its own knots: the same density per the other unit
+        if not all_close(sp['v'], ref, 1e-12): return f"sample at the spectrum's own wavelengths with waveunit='{c['samp_unit']}' ({c['wu']}, {c['vu']}): {sp['v'][:3]} instead of {ref[:3]}"
     if k == 'to':
         units = [u.lower() for u in c['units']]
         known = [u for u in units if u in W or u in F]
